@@ -44,6 +44,7 @@ type Scenario struct {
 	Cuts   []int    `json:"cuts"`
 	ErrAt  int      `json:"errAt"`
 	Pause  int      `json:"pause"` // ms of silence after every write call
+	SlowCB int      `json:"slowcb"` // ms the call-back takes (the consumer is slower than the writer)
 }
 
 type Rec struct {
@@ -52,6 +53,7 @@ type Rec struct {
 	Cuts   []int    `json:"cuts"`
 	ErrAt  int      `json:"errAt"`
 	Pause  int      `json:"pause"`
+	SlowCB int      `json:"slowcb"`
 	Calls  [][]int  `json:"calls"`
 	Ret    string   `json:"ret"`
 	Same   bool     `json:"same"`
@@ -132,7 +134,7 @@ func runOne(dir string, id int, sc Scenario, seed int64) Rec {
 	if r.Intn(4) == 0 {
 		delim = []byte{0, ';', 0xff}[r.Intn(3)]
 	}
-	rec := Rec{ID: id, Stream: sc.Stream, Cuts: sc.Cuts, ErrAt: sc.ErrAt, Pause: sc.Pause, Calls: [][]int{}, Delim: int(delim)}
+	rec := Rec{ID: id, Stream: sc.Stream, Cuts: sc.Cuts, ErrAt: sc.ErrAt, Pause: sc.Pause, SlowCB: sc.SlowCB, Calls: [][]int{}, Delim: int(delim)}
 	if rec.Cuts == nil {
 		rec.Cuts = []int{}
 	}
@@ -177,6 +179,11 @@ func runOne(dir string, id int, sc Scenario, seed int64) Rec {
 		rec.Calls = append(rec.Calls, decodeWithDelims([]byte(s), toks, sc.Stream, delim, rec.Calls))
 		if ncalls == sc.ErrAt {
 			return errInjected
+		}
+		if sc.SlowCB > 0 {
+			mu.Unlock()
+			time.Sleep(time.Duration(sc.SlowCB) * time.Millisecond)
+			mu.Lock()
 		}
 		return nil
 	}
